@@ -378,7 +378,11 @@ fn rvalue_json<'tcx>(tcx: TyCtxt<'tcx>, owner: DefId, body: &Body<'tcx>, rv: &Rv
             ("mut", J::Bool(matches!(bk, mir::BorrowKind::Mut { .. }))),
             ("place", place_json(tcx, body, p.as_ref())),
         ]),
-        Rvalue::RawPtr(_, p) => J::obj(vec![("k", J::s("rawptr")), ("place", place_json(tcx, body, p.as_ref()))]),
+        Rvalue::RawPtr(kind, p) => J::obj(vec![
+            ("k", J::s("rawptr")),
+            ("mut", J::Bool(format!("{:?}", kind).contains("Mut"))),
+            ("place", place_json(tcx, body, p.as_ref())),
+        ]),
         Rvalue::Cast(ck, o, ty) => J::obj(vec![
             ("k", J::s("cast")),
             ("ck", J::s(format!("{:?}", ck))),
